@@ -7,6 +7,8 @@ def exponential(a: float) -> callable:
     :param a: distribution parameter, a>0.
     :returns p: callable
     """
+    # -a * k with an int-typed a raises for unsigned numpy integer degrees
+    a = float(a)
 
     def p(k: int) -> float:
         return (1 - np.exp(-a)) * np.exp(-a * k)
